@@ -1,0 +1,112 @@
+//! Compaction-iterator facade: run `CompactionIterator` over in-memory sorted runs.
+
+use std::sync::Arc;
+
+use crate::clock::LogicalClock;
+use crate::iter::{BoxedLSMIterator, CompactionIterator};
+use crate::{Comparator, InternalKey, InternalKeyKind, InternalKeyRef, LSMIterator, Result};
+
+/// One version: (user key, seq, kind byte, timestamp, value).
+pub type Version = (Vec<u8>, u64, u8, u64, Vec<u8>);
+
+#[derive(Debug)]
+struct FixedClock(u64);
+impl LogicalClock for FixedClock {
+	fn now(&self) -> u64 {
+		self.0
+	}
+}
+
+/// A cursor over a vector of encoded (key, value) pairs sorted by the internal comparator.
+struct VecIter {
+	items: Vec<(Vec<u8>, Vec<u8>)>,
+	pos: usize, // items.len() = invalid
+	cmp: Arc<dyn Comparator>,
+}
+
+impl LSMIterator for VecIter {
+	fn seek(&mut self, target: &[u8]) -> Result<bool> {
+		self.pos = self
+			.items
+			.iter()
+			.position(|(k, _)| self.cmp.compare(k, target) != std::cmp::Ordering::Less)
+			.unwrap_or(self.items.len());
+		Ok(self.valid())
+	}
+	fn seek_first(&mut self) -> Result<bool> {
+		self.pos = 0;
+		Ok(self.valid())
+	}
+	fn seek_last(&mut self) -> Result<bool> {
+		self.pos = if self.items.is_empty() { 0 } else { self.items.len() - 1 };
+		Ok(self.valid())
+	}
+	fn next(&mut self) -> Result<bool> {
+		if self.pos < self.items.len() {
+			self.pos += 1;
+		}
+		Ok(self.valid())
+	}
+	fn prev(&mut self) -> Result<bool> {
+		if self.pos == 0 || self.pos >= self.items.len() {
+			self.pos = self.items.len();
+		} else {
+			self.pos -= 1;
+		}
+		Ok(self.valid())
+	}
+	fn valid(&self) -> bool {
+		self.pos < self.items.len()
+	}
+	fn key(&self) -> InternalKeyRef<'_> {
+		InternalKeyRef::from_encoded(&self.items[self.pos].0)
+	}
+	fn value_encoded(&self) -> Result<&[u8]> {
+		Ok(&self.items[self.pos].1)
+	}
+}
+
+/// Runs the compaction iterator over `runs` (each sorted by user key ascending, seq descending)
+/// and returns the surviving versions in output order.
+pub fn run_iterator(
+	runs: Vec<Vec<Version>>,
+	snapshots: Vec<u64>,
+	bottom: bool,
+	versioning: bool,
+	retention_ns: u64,
+	now: u64,
+) -> std::result::Result<Vec<(Vec<u8>, u64, u8, u64)>, String> {
+	let cmp: Arc<dyn Comparator> =
+		Arc::new(crate::InternalKeyComparator::new(Arc::new(crate::BytewiseComparator::default())));
+	let iters: Vec<BoxedLSMIterator<'static>> = runs
+		.into_iter()
+		.map(|run| {
+			let items = run
+				.into_iter()
+				.map(|(k, seq, kind, ts, v)| {
+					(InternalKey::new(k, seq, InternalKeyKind::from(kind), ts).encode(), v)
+				})
+				.collect();
+			Box::new(VecIter {
+				items,
+				pos: usize::MAX,
+				cmp: Arc::clone(&cmp),
+			}) as BoxedLSMIterator<'static>
+		})
+		.collect();
+	let it = CompactionIterator::new(
+		iters,
+		Arc::clone(&cmp),
+		bottom,
+		versioning,
+		retention_ns,
+		Arc::new(FixedClock(now)),
+		snapshots,
+	);
+	let mut out = Vec::new();
+	for item in it {
+		let (k, _v) = item.map_err(|e| e.to_string())?;
+		out.push((k.user_key.clone(), k.seq_num(), k.kind() as u8, k.timestamp));
+	}
+	Ok(out)
+}
